@@ -139,6 +139,8 @@ pub enum Cmd {
     SubstArg(List),
     /// `{ andor & }`
     Async(Box<AndOr>),
+    /// `x=w NAME ARGS`
+    PrefixCall(u32, Word, Name, Vec<u64>),
     Call(Deco, Name, Vec<u64>),
     Brace(List),
     Subshell(List),
@@ -227,6 +229,9 @@ pub fn coq_cmd(c: &Cmd) -> String {
         Cmd::AssignSub(x, l) => format!("(CAssignSub {} {})", coq::n(*x as u64), coq_clist(l)),
         Cmd::SubstArg(l) => format!("(CSubstArg {})", coq_clist(l)),
         Cmd::Async(a) => format!("(CAsync {})", coq_andor(a)),
+        Cmd::PrefixCall(x, w, nm, args) => {
+            format!("(CPrefixCall {} {} {} {})", coq::n(*x as u64), w.coq(), nm.coq(), coq_nlist(args))
+        }
         Cmd::Call(d, nm, args) => format!(
             "(CCall (mkDeco {} {}) {} {})",
             coq::b(d.bad_redir),
@@ -421,10 +426,15 @@ impl Render<'_> {
                 self.words(&w)
             }
             Cmd::AssignSub(x, l) => {
-                let a = self.osp();
+                // never `$((`, which begins an arithmetic expansion
+                let a = self.sp();
                 let body = self.list(l);
                 let b = if self.ch(1, 4) { "\n".to_string() } else { self.osp() };
                 format!("v{x}=$({a}{body}{b})")
+            }
+            Cmd::PrefixCall(x, w, nm, args) => {
+                let plain = self.cmd(&Cmd::Call(Deco::default(), *nm, args.clone()));
+                format!("v{x}={}{}{plain}", w.text(), self.sp())
             }
             Cmd::Async(a) => {
                 let lb = self.lb();
@@ -434,7 +444,7 @@ impl Render<'_> {
                 format!("{{{lb}{body}{sp}&{end}}}")
             }
             Cmd::SubstArg(l) => {
-                let a = self.osp();
+                let a = self.sp();
                 let body = self.list(l);
                 let b = self.osp();
                 format!(":{}$({a}{body}{b})", self.sp())
@@ -881,6 +891,7 @@ impl Gen<'_> {
         match self.rng.below(10) {
             0..=4 => Word::Lit(self.rng.below(4) as u32),
             9 if cx.errors && self.rng.chance(1, 3) => Word::Req(self.rng.below(NVARS as usize) as u32),
+            8 => Word::Var(3),
             _ => Word::Var(self.rng.below(NVARS as usize) as u32),
         }
     }
@@ -897,7 +908,21 @@ impl Gen<'_> {
             45..=49 => call(if self.rng.chance(1, 2) { Name::True } else { Name::False }, &[]),
             50..=51 => call(Name::Colon, &[]),
             52 => if self.rng.chance(1, 2) { call(Name::Wait, &[]) } else { call(Name::Wait, &[1]) },
-            53..=60 => Cmd::Assign(self.rng.below(NVARS as usize) as u32, self.word(cx)),
+            53 | 54 => {
+                // an assignment before a command name; v3 is only ever assigned this way
+                let w = Word::Lit(self.rng.below(3) as u32);
+                match self.rng.below(5) {
+                    0 => Cmd::PrefixCall(3, w, Name::Colon, vec![]),
+                    1 if cx.rank > 0 => Cmd::PrefixCall(3, w, Name::User(self.rng.below(cx.rank as usize) as u32), vec![]),
+                    2 if cx.depth >= 1 => Cmd::PrefixCall(3, w, Name::Continue, vec![]),
+                    _ => {
+                        let k = self.key();
+                        let st = self.status();
+                        Cmd::PrefixCall(3, w, Name::Probe, vec![k, st])
+                    }
+                }
+            }
+            55..=60 => Cmd::Assign(self.rng.below(NVARS as usize) as u32, self.word(cx)),
             61..=72 => {
                 // break / continue
                 let nm = if self.rng.chance(1, 2) { Name::Break } else { Name::Continue };
@@ -1166,6 +1191,16 @@ fn scrub_builtin_overrides(c: &mut Cmd, inside_override: bool) {
             *nm = Name::Probe;
             *args = vec![7000];
         }
+        Cmd::PrefixCall(_, _, nm, args)
+            if inside_override
+                && matches!(
+                    nm,
+                    Name::True | Name::False | Name::Colon | Name::Break | Name::Continue | Name::Return | Name::Exit
+                ) =>
+        {
+            *nm = Name::Probe;
+            *args = vec![7001];
+        }
         Cmd::Brace(l) | Cmd::Subshell(l) | Cmd::TrapExit(l) | Cmd::AssignSub(_, l) | Cmd::SubstArg(l) => list(l, inside_override),
         Cmd::Async(a) => {
             let mut l = vec![(**a).clone()];
@@ -1296,6 +1331,7 @@ pub fn count_constructs(p: &Prog, w: &mut CasesWriter) {
                 w.count("construct:command substitution");
                 list(l, w)
             }
+            Cmd::PrefixCall(..) => w.count("construct:assignment before a command name"),
             Cmd::Async(a) => {
                 w.count("construct:asynchronous list");
                 list(&vec![(**a).clone()], w)
@@ -1574,6 +1610,26 @@ pub fn corpus() -> Vec<Prog> {
         Line::Cmd(vec![AndOr { first: Pipeline { neg: false, cmds: vec![call(Name::Wait, &[1])] }, rest: vec![(false, Pipeline { neg: false, cmds: vec![probe(4, 0)] })] }]),
         Line::Cmd(seq(vec![Cmd::Async(Box::new(simple(Cmd::Brace(seq(vec![probe(5, 0), call(Name::Exit, &[6])]))))), call(Name::Wait, &[]), probe(7, 0)])),
         Line::Cmd(l1(Cmd::Subshell(vec![AndOr { first: Pipeline { neg: false, cmds: vec![call(Name::Wait, &[1])] }, rest: vec![(false, Pipeline { neg: false, cmds: vec![probe(8, 0)] })] }]))),
+    ]);
+    // assignments before a command name: persistent for a special built-in, temporary
+    // otherwise (visible in a function body); a read-only variable is an error even
+    // when it is assigned the value it already has
+    v.push(vec![
+        Line::Cmd(l1(Cmd::FunDef(
+            Name::User(0),
+            Box::new(Cmd::Brace(l1(Cmd::Case(Word::Var(3), vec![(vec![Pat::Lit(1)], l1(probe(1, 0)), Cont::Break)])))),
+        ))),
+        Line::Cmd(seq(vec![Cmd::PrefixCall(3, Word::Lit(1), Name::User(0), vec![]), Cmd::PrefixCall(3, Word::Lit(1), Name::Probe, vec![2, 4])])),
+        Line::Cmd(l1(Cmd::Case(Word::Var(3), vec![(vec![Pat::Lit(1)], l1(probe(3, 0)), Cont::Break), (vec![Pat::Star], l1(probe(4, 0)), Cont::Break)]))),
+        Line::Cmd(seq(vec![Cmd::PrefixCall(3, Word::Lit(0), Name::Colon, vec![]), Cmd::Readonly(3)])),
+        Line::Cmd(l1(Cmd::Case(Word::Var(3), vec![(vec![Pat::Lit(0)], l1(probe(5, 6)), Cont::Break)]))),
+        Line::Cmd(l1(Cmd::Assign(3, Word::Lit(0)))),
+        Line::Cmd(l1(probe(7, 0))),
+    ]);
+    v.push(vec![
+        Line::Cmd(seq(vec![Cmd::Assign(3, Word::Lit(0)), Cmd::Readonly(3), probe(1, 5)])),
+        Line::Cmd(l1(Cmd::PrefixCall(3, Word::Lit(0), Name::Probe, vec![2]))),
+        Line::Cmd(l1(probe(3, 0))),
     ]);
     // a shell error inside the EXIT trap action ends the shell with the error status 2
     // (yash-rs left the stale `$?`; repaired by commit 52e95c4)
